@@ -319,6 +319,109 @@ pub fn check_tape(ctx: &Ctx, name: &str, blocks: &[Vec<u8>]) {
     }
 }
 
+/// Machine level: the tape must advance with *all* emulated time, whatever bus cycles the CPU
+/// executes. Polling/idle programs placed in contended and uncontended RAM (taken JR, DJNZ, 16-bit
+/// INC with I pointing into contended RAM, LDIR over contended RAM, OUTs to contended ports) run
+/// while the tape plays; the EAR level is sampled after every instruction and every pulse, as
+/// well as the running total, must stay inside nominal .. nominal+32 (+ one instruction of
+/// observation granularity).
+pub fn machine_level(ctx: &Ctx) {
+    use crate::rig::{Opts, RegsView};
+    let programs: Vec<(&str, u16, Vec<u8>, u8)> = vec![
+        ("jr-self@8000", 0x8000, vec![0x18, 0xFE], 0x3F),
+        ("jr-self@6000", 0x6000, vec![0x18, 0xFE], 0x3F),
+        ("djnz+inc-bc,I=60@6000", 0x6000, vec![0x03, 0x0B, 0x10, 0xFC, 0x18, 0xFA], 0x60),
+        ("add-hl+push-pop,I=7F@8000", 0x8000, vec![0x09, 0xE5, 0xE1, 0x18, 0xFB], 0x7F),
+        ("ldir-contended@8000", 0x8000, vec![0x21, 0x00, 0x60, 0x11, 0x00, 0x70, 0x01, 0x40, 0x00, 0xED, 0xB0, 0x18, 0xF3], 0x3F),
+        ("in-out-contended-ports@6000", 0x6000, vec![0x01, 0xFF, 0x7F, 0xED, 0x78, 0xED, 0x79, 0x01, 0xFE, 0x40, 0xED, 0x78, 0x18, 0xF2], 0x3F),
+        ("indexed@6000", 0x6000, vec![0xDD, 0x21, 0x00, 0x61, 0xDD, 0x34, 0x05, 0xDD, 0xCB, 0x05, 0x06, 0x18, 0xF5], 0x3F),
+    ];
+    let jobs: Vec<(bool, usize)> = [false, true].iter().flat_map(|m| (0..programs.len()).map(move |i| (*m, i))).collect();
+    par_for(jobs.len(), 1, |j| {
+        let (m128, pi) = jobs[j];
+        let (name, org, code, ireg) = &programs[pi];
+        let mut o = Opts::machine(m128);
+        o.sound = false;
+        let mut e = rig::emu_stepping(&o);
+        rig::poke(&mut e, *org, code);
+        let mut r = RegsView::default();
+        r.pc = *org;
+        r.sp = 0xBF00;
+        r.i = *ireg;
+        r.bc = 0x2000;
+        rig::set_regs(e.verif_cpu(), &r);
+        let blocks = vec![std_block(0xFF, &[0xA5, 0x3C])];
+        if e.load_tape(rustzx_core::host::Tape::Tap(rig::VAsset::new(tap_image(&blocks)))).is_err() {
+            return;
+        }
+        e.play_tape();
+        let mut last_edge: Option<u64> = None;
+        let mut level = e.verif_tape_state().map(|s| s.curr_bit).unwrap_or(false);
+        let mut pulses: Vec<u64> = Vec::new();
+        let mut max_instr = 0u64;
+        let mut prev_t = rig::abs_t(&e, m128);
+        let limit = 3223 * 2200 + 40 * 1800 + 200_000;
+        let t0 = prev_t;
+        while rig::abs_t(&e, m128) - t0 < limit {
+            rig::step(&mut e);
+            let t = rig::abs_t(&e, m128);
+            max_instr = max_instr.max(t - prev_t);
+            prev_t = t;
+            let l = e.verif_tape_state().map(|s| s.curr_bit).unwrap_or(false);
+            if l != level {
+                level = l;
+                if let Some(le) = last_edge {
+                    pulses.push(t - le);
+                }
+                last_edge = Some(t);
+            }
+        }
+        ctx.add_traces(1);
+        let case = json!({"kind":"machine","m128":m128,"program":name});
+        let mname = if m128 { "128k" } else { "48k" };
+        // every pulse, with one instruction of observation granularity on each side
+        let mut total_nominal = 0u64;
+        let mut total = 0u64;
+        for (k, p) in pulses.iter().enumerate() {
+            let kind = [PulseKind::Pilot, PulseKind::Sync1, PulseKind::Sync2, PulseKind::Zero, PulseKind::One]
+                .iter()
+                .copied()
+                .filter(|kd| *p + max_instr >= nominal(*kd) && *p <= nominal(*kd) + TOL + max_instr)
+                .min_by_key(|kd| (nominal(*kd) as i64 - *p as i64).abs());
+            match kind {
+                Some(kd) => {
+                    total_nominal += nominal(kd);
+                    total += *p;
+                }
+                None => {
+                    ctx.violation(
+                        &format!("C11:machine-level:non-standard-pulse:{}", mname),
+                        &format!("{} machine running [{}] while the tape plays: pulse #{} lasts {} T as seen by the CPU (longest instruction {} T); not a standard pulse within nominal..nominal+32", mname, name, k, p, max_instr),
+                        case.clone(),
+                    );
+                    return;
+                }
+            }
+        }
+        // cumulative: the tape may never lag or lead emulated time by more than the per-pulse allowance
+        let n = pulses.len() as u64;
+        if n < 3000 {
+            ctx.violation(&format!("C11:machine-level:too-few-pulses:{}", mname), &format!("[{}]: only {} pulses in {} T", name, n, limit), case.clone());
+            return;
+        }
+        if total + max_instr < total_nominal || total > total_nominal + n * TOL + max_instr {
+            ctx.violation(
+                &format!("C11:machine-level:tape-time-drifts:{}", mname),
+                &format!("{} machine running [{}]: {} pulses took {} T of emulated time, nominal {} T, allowed up to {} T", mname, name, n, total, total_nominal, total_nominal + n * TOL),
+                case,
+            );
+            return;
+        }
+        ctx.outcome(fnv(name.as_bytes()) ^ (total - total_nominal));
+    });
+    ctx.note("machine_level_programs", json!(programs.iter().map(|p| p.0).collect::<Vec<_>>()));
+}
+
 pub fn quick_tapes() -> Vec<(&'static str, Vec<Vec<u8>>)> {
     vec![
         ("data2", vec![std_block(0xFF, &[0xA5])]),
@@ -350,6 +453,7 @@ pub fn run(tier: Tier, seed: u64, replay: Option<String>) -> i32 {
     ctx.note("tapes", json!(tapes.iter().map(|(n, b)| json!({"name":n,"block_lengths":b.iter().map(|x| x.len()).collect::<Vec<_>>()})).collect::<Vec<_>>()));
     ctx.note("step_alphabet", json!("process_clocks(s) for every s in 0..=16 from every reachable (tape state, time since last edge)"));
     crate::checks::c10::realtime_vs_fast(&ctx);
+    machine_level(&ctx);
     ctx.finish(
         "component level: for each tape, every reachable state of the real Tap under all partitions of time into process_clocks steps 0..=16 (search decomposed at state-machine reload events; convergence of all paths at each reload is re-checked on every exit transition); oracle: RefTape decoder on the pulse list (pilot counts, sync, MSB-first bits, pause, decoded bytes == TAP blocks) and nominal <= pulse <= nominal+32 on every edge transition. distinct = distinct (pulse kind, extreme duration) and waveform outcomes",
         true,
